@@ -125,7 +125,15 @@ func emitC03(c *ctx, p *tak.Position, kind string) {
 			for t := tak.PlaceFlat; t <= tak.SlideDown; t++ {
 				var shapes []tak.Slides
 				if t >= tak.SlideLeft {
-					shapes = []tak.Slides{tak.MkSlides(1), tak.MkSlides(2), tak.MkSlides(1, 1), tak.MkSlides(2, 1), tak.MkSlides(1, 2)}
+					// malformed drop lists everywhere (no drop at all, zero drops inside, oversized drops, eight nibbles) ...
+					shapes = []tak.Slides{tak.MkSlides(1), tak.MkSlides(2), tak.MkSlides(1, 1), tak.MkSlides(2, 1), tak.MkSlides(1, 2),
+						0, 0x10, 0x100, 0x101, 0x1000, 0x1001, 0x9, 0xF, 0x11111111, 0xFFFFFFFF, 0x80000000}
+					// ... and every composition of every carry on occupied squares
+					if x >= 0 && y >= 0 && x < n && y < n && len(p.At(int(x), int(y))) > 0 {
+						for k := 1; k <= int(n); k++ {
+							shapes = append(shapes, compositions(k, int(n))...)
+						}
+					}
 				} else {
 					shapes = []tak.Slides{0}
 				}
